@@ -233,12 +233,20 @@ class InProc:
             "INTRA": self.m_ts.TransactionSet(config, "INTRA", asset),
         }
         D = self.D
+        from rpv.gen import render_ts
+
+        def ts_of(r: Dict[str, Any]) -> str:
+            try:
+                return render_ts(r["ts"])  # same instant and offset, one of several export formats
+            except ValueError:
+                return r["ts"]
+
         # the parser adds transactions in sheet-row order
         for r in sorted(hist["rows"], key=lambda x: x["row"]):
             if r["t"] == "IN":
                 transaction = self.m_in.InTransaction(
                     config,
-                    r["ts"],
+                    ts_of(r),
                     asset,
                     r["ex"],
                     r["ho"],
@@ -256,7 +264,7 @@ class InProc:
             elif r["t"] == "OUT":
                 transaction = self.m_out.OutTransaction(
                     config,
-                    r["ts"],
+                    ts_of(r),
                     asset,
                     r["ex"],
                     r["ho"],
@@ -274,7 +282,7 @@ class InProc:
             else:
                 transaction = self.m_intra.IntraTransaction(
                     config,
-                    r["ts"],
+                    ts_of(r),
                     asset,
                     r["fex"],
                     r["fho"],
